@@ -453,6 +453,20 @@ def _aliases(I, v, path, roots, top=False, items_of=()):
             for p in x.parts:
                 if p.kind == 'elem':
                     visit(p.val, depth + 1)
+                elif p.kind == 'spread' and x.kind in ('dict', 'list'):
+                    # dict(X) / list(X): the members (values) of X are
+                    # shared, not copied
+                    src = p.val
+                    t = I.typeof(src, path) if isinstance(
+                        src, (Sym, App)) else None
+                    inner = None
+                    if t and t[0] == 'b' and t[1] == 'dict' and len(t) > 3:
+                        inner = t[3]
+                    elif t and t[0] == 'b' and t[1] == 'list' and len(t) > 2:
+                        inner = t[2]
+                    if inner and inner[0] == 'b' and inner[1] in (
+                            'set', 'list', 'dict') and root_of(src) in roots:
+                        out.append(App('members-of', src))
         elif isinstance(x, App) and x.op == 'inst':
             for kv in x.args[2].items:
                 visit(kv.items[1], depth + 1)
